@@ -86,6 +86,9 @@ _TOKEN_VERSION = 1
 _SESSION_ID_LEN = 12  # bytes → 24 hex chars when encoded (RpcServer.server_id is shorter: 12 hex chars)
 _PLAINTEXT_PREFIX = struct.Struct("<Q B")  # created_at, server_id_len
 _PLAINTEXT_SUFFIX = struct.Struct("<Q")  # expires_at
+# How long shutdown() waits for a call still dispatching against a session
+# before closing the session anyway.
+_SHUTDOWN_LOCK_WAIT_SECONDS = 5.0
 
 
 # ---------------------------------------------------------------------------
@@ -265,13 +268,21 @@ class _SessionRegistry:
             entry = self._entries.get(session_id)
             if entry is None:
                 return None
-            if entry.expires_at < now:
-                del self._entries[session_id]
-                self._close_state_suppressed(entry.state)
+            if entry.expires_at >= now:
+                if entry.principal_key != principal_key:
+                    return None
+                return entry
+            # Expired: evict only when no call is dispatching against the
+            # session (otherwise leave it to a later sweep), and run close()
+            # outside the registry lock.
+            if not entry.lock.acquire(blocking=False):
                 return None
-            if entry.principal_key != principal_key:
-                return None
-        return entry
+            del self._entries[session_id]
+        try:
+            self._close_state_suppressed(entry.state)
+        finally:
+            entry.lock.release()
+        return None
 
     def close(self, session_id: bytes) -> bool:
         """Remove a session and invoke ``state.close()``. Returns ``True`` on hit."""
@@ -286,11 +297,19 @@ class _SessionRegistry:
         """Evict any sessions past their TTL. Returns the eviction count."""
         if now is None:
             now = time.time()
+        expired: list[_SessionEntry] = []
         with self._lock:
-            expired_sids = [sid for sid, e in self._entries.items() if e.expires_at < now]
-            expired = [self._entries.pop(sid) for sid in expired_sids]
+            for sid, e in list(self._entries.items()):
+                # Skip a session a call is still dispatching against; a later
+                # sweep picks it up once the call has finished.
+                if e.expires_at < now and e.lock.acquire(blocking=False):
+                    del self._entries[sid]
+                    expired.append(e)
         for entry in expired:
-            self._close_state_suppressed(entry.state)
+            try:
+                self._close_state_suppressed(entry.state)
+            finally:
+                entry.lock.release()
         return len(expired)
 
     def shutdown(self) -> None:
@@ -304,7 +323,16 @@ class _SessionRegistry:
             entries = list(self._entries.values())
             self._entries.clear()
         for entry in entries:
-            self._close_state_suppressed(entry.state)
+            # Wait for a call that is still dispatching against the session so
+            # close() does not run underneath it -- but only for a bounded
+            # time: shutdown is the forced end of a grace period and must not
+            # hang on a stuck request.
+            acquired = entry.lock.acquire(timeout=_SHUTDOWN_LOCK_WAIT_SECONDS)
+            try:
+                self._close_state_suppressed(entry.state)
+            finally:
+                if acquired:
+                    entry.lock.release()
 
     def __len__(self) -> int:
         with self._lock:
@@ -541,6 +569,18 @@ class _StickyMiddleware:
             # Released in process_response. Same-session concurrent calls
             # serialize here; different-session calls run in parallel.
             entry.lock.acquire()
+            # The session may have been closed (DELETE, close_session(), TTL
+            # sweep, shutdown) between the lookup above and getting its lock:
+            # look again now that no one else can be using it.
+            if self._registry.get(session_id, principal_key) is not entry:
+                entry.lock.release()
+                _set_error_response(
+                    resp,
+                    SessionLostError("session closed while the request was queued"),
+                    status_code=HTTPStatus.INTERNAL_SERVER_ERROR,
+                )
+                resp.complete = True
+                return
             req.context.sticky_entry = entry
             req.context.sticky_entry_lock_acquired = True
             session_id_hex = session_id.hex()
@@ -615,14 +655,16 @@ class _StickyMiddleware:
             session_id = bytes.fromhex(sc.session_id)
         except ValueError:
             return False
-        # Release the per-session RLock before removal so process_response's
-        # release doesn't double-unlock.
+        # Remove (and close) the session while still holding its lock, so a
+        # request queued on the lock cannot start dispatching before close()
+        # has run; then release so process_response's release doesn't
+        # double-unlock.
+        hit = self._registry.close(session_id)
         entry = getattr(req.context, "sticky_entry", None)
         if entry is not None and getattr(req.context, "sticky_entry_lock_acquired", False):
             with contextlib.suppress(RuntimeError):
                 entry.lock.release()
             req.context.sticky_entry_lock_acquired = False
-        hit = self._registry.close(session_id)
         # Clear the contextvar so subsequent ctx.session reads return None.
         sc_token = getattr(req.context, "sticky_session_token", None)
         if sc_token is not None:
